@@ -112,6 +112,46 @@ def work_format_file(src):
     return out
 
 
+# files as BYTES: a declared source encoding, a byte order mark, CR / CRLF line ends.  Validity is what the interpreter says about the bytes
+# (compile), before and after format_file - "a syntactically valid file is never replaced by an invalid one"
+ENCODED = []
+for _codec, _cookie in (("latin-1", "# -*- coding: latin-1 -*-"), ("cp1252", "# -*- coding: cp1252 -*-"), ("iso-8859-15", "# vim: set fileencoding=iso-8859-15 :"), ("euc-jp", "# -*- coding: euc-jp -*-"),
+                        ("utf-8", "# -*- coding: utf-8 -*-"), ("utf-8-sig", ""), ("utf-16", "")):
+    for _body in ("import os\nimport sys\n\nname = 'caf\u00e9'\nprint(name, sys.argv)\n", "import os\n\n\nclass K:\n    \u00e9tat = 1\n\n\nprint(K.\u00e9tat)\n", "import os\n\nprint('plain')\n"):
+        _text = (_cookie + "\n" if _cookie else "") + (_body if _codec != "euc-jp" else _body.replace("caf\u00e9", "\u65e5\u672c").replace("\u00e9tat", "\u72b6\u614b"))
+        try:
+            ENCODED.append((_codec, _text.encode(_codec)))
+        except UnicodeEncodeError:
+            pass
+for _nl in ("\r\n", "\r"):
+    ENCODED.append(("utf-8" + repr(_nl), "import os\nimport sys\n\nprint(sys.argv)\n".replace("\n", _nl).encode()))
+
+
+def _bytes_valid(data):
+    try:
+        compile(data, "<file>", "exec", dont_inherit=True)
+        return True
+    except (SyntaxError, ValueError):
+        return False
+
+
+def work_format_file_bytes(item):
+    import importlib
+    P.quiet()
+    pmain = importlib.import_module("pyrefact.main")
+    label, data = item
+    with tempfile.TemporaryDirectory() as d:
+        p = os.path.join(d, "m.py")
+        with open(p, "wb") as f:
+            f.write(data)
+        was = _bytes_valid(data)
+        P.guarded(lambda s: pmain.format_file(s), p, 180)          # raising is C04's subject: what matters here is the file it leaves behind
+        now = open(p, "rb").read()
+        if was and not _bytes_valid(now):
+            return [{"cls": "format_file-wrote-invalid:encoded", "what": f"format_file replaced a valid {label} file by bytes that the interpreter rejects: {now[:120]!r}", "kind": "invalid", "output": repr(now)}]
+    return []
+
+
 # inputs whose validity hangs on layout: tab indentation with ignore comments (a restored tab among expanded neighbours is a TabError),
 # one-line compound statements, form feeds, continuation lines, parenthesised __future__ imports, recursive duplicates
 LAYOUT_SENSITIVE = [
@@ -181,6 +221,15 @@ def run(tier, seed, kinds=("invalid",), name_prefix="c03"):
         out.append({"name": nm, "function": fn_desc, "contract": "valid in => valid out" if "invalid" in kinds else "total: str result, no exception, within the time limit",
                     "space": space, "bound": "corpus sample (seeded)" if tier == "quick" else "whole corpus", "evaluations": evals, "distinct_nontrivial": len(set(inputs)),
                     "exhaustive": False, "failures": P.cap(fl), "samples": [inputs[0][:200]]})
+    if "invalid" in kinds:
+        r_enc = P.pool_map(work_format_file_bytes, ENCODED, chunksize=1)
+        fl = []
+        for (label, data), rs in zip(ENCODED, r_enc):
+            for r in rs:
+                fl.append({"id": f"{r['cls']}::{label}::{P.sha(repr(data))}", "cls": r["cls"], "input": repr(data), "observed": r["what"], "output": r.get("output"), "required": "a file the interpreter accepts is not replaced by one it rejects"})
+        out.append({"name": f"{name_prefix}-format-file-bytes", "function": "main.format_file", "contract": "compile(bytes before) succeeds => compile(bytes after) succeeds",
+                    "space": f"{len(ENCODED)} files: 7 encodings (declared by a coding line, a byte order mark, or none) x 3 bodies with non-ASCII text in a string / an identifier / nowhere, and CR / CRLF files; each with an unused import so that the formatter has something to change",
+                    "bound": "enumerated encodings", "evaluations": len(ENCODED), "distinct_nontrivial": len(ENCODED), "exhaustive": True, "failures": P.cap(fl), "samples": [repr(ENCODED[0][1])[:200]]})
     return out
 
 
